@@ -2,6 +2,91 @@
 //! Shares the engine, generators, reference models and per-property core logic with /verif/harness
 //! through #[path] includes. Writes a summary to /verif/target/tokio-<ID>.json which `hv` merges into
 //! the evidence file of the property.
+//! usage: hvt <ID> <quick|thorough>  |  hvt <ID> --replay <file>
+
+#[macro_use]
+#[path = "/verif/harness/src/engine/mod.rs"]
+pub mod engine;
+
+pub mod common {
+    #[path = "/verif/harness/src/common/glob.rs"]
+    pub mod glob;
+    #[path = "/verif/harness/src/common/http.rs"]
+    pub mod http;
+    #[path = "/verif/harness/src/common/net.rs"]
+    pub mod net;
+    #[path = "/verif/harness/src/common/refs.rs"]
+    pub mod refs;
+}
+
+pub mod props {
+    #[path = "/verif/harness/src/props/c02.rs"]
+    pub mod c02;
+}
+
+mod areader;
+mod t02;
+
+use engine::{Ctx, Tier};
+
+#[global_allocator]
+static ALLOC: engine::worker::CountingAlloc = engine::worker::CountingAlloc;
+
 fn main() {
-    println!("hvt placeholder");
+    let args: Vec<String> = std::env::args().collect();
+    if args.len() < 3 {
+        eprintln!("usage: hvt <ID> <quick|thorough> | hvt <ID> --replay <file>");
+        std::process::exit(2);
+    }
+    let id = args[1].to_uppercase();
+    let seed: u64 = std::env::var("VERIF_SEED").ok().and_then(|s| s.trim().parse::<u64>().ok()).unwrap_or(20260928);
+    engine::quiet_panics();
+    if args[2] == "--replay" {
+        let path = args.get(3).cloned().unwrap_or_default();
+        let v: serde_json::Value = match std::fs::read_to_string(&path).ok().and_then(|t| serde_json::from_str(&t).ok()) {
+            Some(v) => v,
+            None => {
+                eprintln!("cannot read replay file {}", path);
+                std::process::exit(2);
+            }
+        };
+        let mut ctx = Ctx::new(&id, Tier::Quick, seed, "exploration");
+        ctx.replay_mode = true;
+        let kind = v["kind"].as_str().unwrap_or("").to_string();
+        let fails = match id.as_str() {
+            "C02" => t02::replay(&ctx, &kind, &v["case"]),
+            _ => vec![engine::Fail::new("harness", "no tokio replay for this property")],
+        };
+        let mut code = 0;
+        for f in fails {
+            if ctx.tolerate(&f) {
+                println!("KNOWN-FINDING: property={} key={} {}", id, f.sig, f.detail);
+            } else {
+                println!("VIOLATION property={} replay={}", id, path);
+                println!("  signature: {}", f.sig);
+                println!("  detail: {}", f.detail);
+                code = 1;
+            }
+        }
+        if code == 0 {
+            println!("{} replay {}: property held (tokio runtime)", id, path);
+        }
+        std::process::exit(code);
+    }
+    let tier = match args[2].as_str() {
+        "quick" => Tier::Quick,
+        "thorough" => Tier::Thorough,
+        _ => std::process::exit(2),
+    };
+    let mut ctx = Ctx::new(&id, tier, seed, "exploration");
+    ctx.evidence_path = Some(format!("/verif/target/tokio-{}.json", id));
+    ctx.replay_tag = "tokio-";
+    match id.as_str() {
+        "C02" => t02::run(&ctx),
+        _ => {
+            eprintln!("no tokio twin for {}", id);
+            std::process::exit(2);
+        }
+    }
+    std::process::exit(ctx.finish());
 }
